@@ -17,7 +17,21 @@ import threading
 import vlib
 
 TRACE_SPEC = ("BigNat.tla", "RigoProps.tla", "RigoMon.tla", "RigoTrace.tla", "RigoTrace.cfg")
+CONF_SPEC = ("BigNat.tla", "RigoProps.tla", "RigoCore.tla", "RigoConf.tla", "RigoConf.cfg")
 _lock = threading.Lock()
+
+
+def conform_file(trace, timeout=3000):
+    """Is the recorded behaviour a behaviour of the transition model RigoCore.tla?  Returns (differences, counts).
+    Differences are diagnostics (CONFORMANCE-DIFF), never verdicts."""
+    with _lock:
+        files = vlib.spec_files(*CONF_SPEC)
+    res = vlib.run_tlc(files, "RigoConf.tla", "RigoConf.cfg", workers=1, timeout=timeout,
+                       cwd_files={"trace.ndjson": trace}, java_opts=["-Xmx3g"])
+    if vlib.tlc_failed(res) or "DIFFS" not in res.prints:
+        raise vlib.MachineryError("model conformance of %s did not complete:\n%s" % (trace, res.output[-3000:]))
+    counts = res.print_json("COUNTS")
+    return res.print_json("DIFFS"), counts
 
 
 def validate_file(trace, timeout=3000):
@@ -78,11 +92,23 @@ def meta_of(metas, line):
 def collect(v, prop, traces, scen_dirs, label_of=None):
     """Validate trace files in parallel; feed violations of `prop` into the verdict."""
     results = {}
-    with concurrent.futures.ThreadPoolExecutor(max_workers=min(8, max(1, len(traces)))) as ex:
+    conf = {}
+    with concurrent.futures.ThreadPoolExecutor(max_workers=min(8, max(1, 2 * len(traces)))) as ex:
         futs = {ex.submit(validate_file, t): t for t in traces}
+        cfuts = {ex.submit(conform_file, t): t for t in traces}
         for f in concurrent.futures.as_completed(futs):
             results[futs[f]] = f.result()
-    stats = {"traces": 0, "events": 0, "nontrivial": 0, "kinds": set(), "others": {}, "unexpected": []}
+        for f in concurrent.futures.as_completed(cfuts):
+            conf[cfuts[f]] = f.result()
+    stats = {"traces": 0, "events": 0, "nontrivial": 0, "kinds": set(), "others": {}, "unexpected": [],
+             "model_steps": 0, "model_adopted": 0}
+    for t in traces:
+        ds, counts = conf[t]
+        stats["model_steps"] += counts["steps"]
+        stats["model_adopted"] += counts["adopted"]
+        for d in ds:
+            v.diff("RigoCore.tla does not describe what the code did at line %d of %s (%s%s): %s differ" % (
+                d["line"], os.path.basename(t), d["ev"], (" " + d["tag"]) if d.get("tag") else "", ", ".join(sorted(d["fields"]))))
     for t in traces:
         metas = trace_index(t)
         stats["traces"] += len(metas)
